@@ -81,6 +81,7 @@ def unit_sets(tier):
         yield "rule-family(1)", [("block", b) for b in families.rule_family(1)], cfgs[:1]
         yield "hand-specs", [("spec", s) for s in handspecs.hand_specs(level=1)], cfgs[:1]
         yield "vocabulary-family", [("block", b) for b in families.vocabulary_family()], cfgs
+        yield "cse-family", [("block", b) for b in families.cse_family()], cfgs[:1]
         yield "deep-specs", [("spec", s) for s in handspecs.deep_specs(level=1)], cfgs[:1]
     else:
         yield "tree(CORE,4)", [("block", b) for b in B.tree(B.CORE, 4)], cfgs
@@ -89,6 +90,7 @@ def unit_sets(tier):
         yield "rule-family(2)", [("block", b) for b in families.rule_family(2)], cfgs[:1]
         yield "hand-specs", [("spec", s) for s in handspecs.hand_specs(level=2)], cfgs[:1]
         yield "vocabulary-family", [("block", b) for b in families.vocabulary_family()], cfgs
+        yield "cse-family", [("block", b) for b in families.cse_family()], cfgs[:1]
         yield "deep-specs", [("spec", s) for s in handspecs.deep_specs(level=2)], cfgs[:1]
 
 
